@@ -329,6 +329,22 @@ func (s *Service) dispatch(response map[string]map[string]any, client *ClientSer
 
 			AgentInstance = agent.RegisterInfoToInstance(Header, RegisterInfo)
 
+			// a session with this id exists already (a Demon's, or a 3rd party agent that was
+			// registered before): no two sessions share an id, the existing one is kept as it is
+			if s.Data.ServerAgents != nil {
+				var Taken = false
+				for _, known := range s.Data.ServerAgents.Agents {
+					if known != nil && known.NameID == AgentInstance.NameID {
+						Taken = true
+						break
+					}
+				}
+				if Taken {
+					logger.Error(fmt.Sprintf("Service agent register: a session with the id %v already exists", AgentInstance.NameID))
+					break
+				}
+			}
+
 			AgentInstance.Info.MagicValue = Header.MagicValue
 			// AgentInstance.Info.Listener   = h
 
